@@ -238,19 +238,24 @@ def race_scenarios(tier, rng):
                     for ts in (srcs(True) if P["trig"] else [None]):
                         combos.append((cons, st, ms, ts))
         rng.shuffle(combos)
-        # always keep the canonical race: value-yielding source that ignores stop, inline cleanup, both consumers
-        base = [c for c in combos if c[2] == S(1, "d", [0, 0], "ignore", "id") and c[1] == stoppers[0] and (c[3] is None or c[3] == S(1, "d", [0], "ignore", "id"))]
+        # always keep the canonical races: a value-yielding source that ignores stop, with inline and with deferred cleanups (the
+        # latter lets the two cleanup completions of a take_until meet on different threads), first stopper setting, every consumer
+        def canon(c):
+            return (c[1] == stoppers[0] and c[2] in (S(1, "d", [0, 0], "ignore", "id"), S(1, "d", [0, 0], "ignore", "dd"))
+                    and (c[3] is None or (c[3]["cl"] == c[2]["cl"] and c[3] == S(1, "d", [0, 0], "ignore", c[2]["cl"]))))
+        base = [c for c in combos if canon(c)]
         seen, sel = set(), []
         for c in base + combos:
             k = json.dumps(c, sort_keys=True)
             if k not in seen:
                 seen.add(k)
                 sel.append(c)
-        for cons, st, ms, ts in sel[:take]:
+        nbase = len(base) if kind in ("si", "tu", "te") else 0
+        for idx, (cons, st, ms, ts) in enumerate(sel[:max(take, nbase)]):
             src = {str(P["srcs"][0]): ms}
             if ts is not None:
                 src[str(P["trig"][0])] = ts
-            out.append(dict(kind=kind, stopper=st, src=src, drvNexts=ms["len"] + 1,
+            out.append(dict(kind=kind, stopper=st, src=src, drvNexts=ms["len"] + 1, capx=2 if idx < nbase else 1,
                             pipe=dict(cons=cons, kind=P["kind"], kids=P["kids"], arg=[0] * len(P["kind"]), root=P["root"]),
                             text="race:%s(%s)" % (CONS_NAME[cons], P["text"])))
     for i, sc in enumerate(out):
@@ -281,66 +286,70 @@ def run_race(ctx):
     exe = vlib.build(ctx, "stream_race_driver", [os.path.join(HERE, "driver_race.cpp")], lib=["inplace_stop_token.cpp", "async_stack.cpp", "exception.cpp"],
                      incs=[HERE], opt="-O0", recover=True, extra=["-fsanitize-recover=vptr"])
     DIV = 100000
-    runs = [("dfs", ["--mode", "dfs", "--scenarios", sp, "--bound", 2, "--cap", 30 if ctx.quick else 40, "--stopsites", 0 if ctx.quick else 1]),
-            ("random", ["--mode", "random", "--scenarios", sp, "--seed", ctx.seed, "--cap", 10 if ctx.quick else 15, "--stopsites", 0 if ctx.quick else 1])]
-    for mode, args in runs:
-        lp = os.path.join(ctx.work, "race_%s.ndjson" % mode)
-        t0 = time.time()
-        # the scenarios are split over several driver processes (a controlled execution is dominated by thread hand-off latency)
-        par = max(1, min(8, vlib.NCPU, len(scns)))
-        bounds = [round(i * len(scns) / par) for i in range(par + 1)]
+    common = ["--scenarios", sp, "--stopsites", 0 if ctx.quick else 1]
+    runs = [("dfs", common + ["--mode", "dfs", "--bound", 2, "--cap", 24 if ctx.quick else 40]),
+            ("random", common + ["--mode", "random", "--seed", ctx.seed, "--cap", 8 if ctx.quick else 15, "--kbase", 50000])]
+    lp = os.path.join(ctx.work, "race.ndjson")
+    t0 = time.time()
+    # the scenarios are split over several driver processes (a controlled execution is dominated by thread hand-off latency)
+    par = max(1, min(8, vlib.NCPU, len(scns)))
+    bounds = [round(i * len(scns) / par) for i in range(par + 1)]
+    tasks = [(mode, args, i) for i in range(par) for mode, args in runs]
 
-        def part(i):
-            return run_replay(ctx, exe, args, bounds[i + 1], lp + ".%d" % i, timeout=2400, unit_div=DIV, max_fatal=6, start=bounds[i])
-        sums, deaths = [], []
-        with concurrent.futures.ThreadPoolExecutor(max_workers=par) as ex:
-            for sm, dt in ex.map(part, range(par)):
-                sums += sm
-                deaths += dt
-        with open(lp, "w") as f:
-            for i in range(par):
-                f.write(open(lp + ".%d" % i).read())
-                os.remove(lp + ".%d" % i)
-        execs = sum(s.get("execs", 0) for s in sums)
-        rep.evaluations += execs
-        tainted = set()
-        for d in deaths:
-            x = d["x"]
-            sc = scns[x // DIV] if x // DIV < len(scns) else None
-            tainted.add(x)
-            kinds = sorted(set(sc["pipe"]["kind"])) if sc else []
-            sig = "%s|%s:%s:%s@%s" % ("take_until" if "take_until" in kinds else "-", d["event"], d.get("asan", ""), d.get("frame", ""), ",".join(d.get("marks", [])))
-            rep.violation(dict(engine="stream", mode="race-" + mode, event=d["event"], shape=sc["text"] if sc else "?", kinds=kinds, scenario=sc, sig=sig,
-                               asan=d.get("asan"), frame=d.get("frame"), where=d.get("where"),
-                               what="%s in %s schedule %d of %s [sources %s, stopper %s]: %s %s" % (
-                                   d["event"], mode, x % DIV, sc["text"] if sc else "?", json.dumps(sc["src"]) if sc else "", sc["stopper"] if sc else "",
-                                   d.get("asan", ""), d.get("frame", "")), detail=d.get("stderr_tail")))
-        n, rejected = vlib.validate_batched(ctx, "stream", "StreamMon", lp, skip_x=tainted, max_reports=6)
-        nd = 0
-        for ex in vlib.split_executions(lp):
-            rep.distinct.add(hash(("race", "".join(ex[1][1:]))))
-            nd += 1
-        rep.note("race %s: %d scenarios, %d schedules executed, %d validated against StreamMon, %d sanitizer/crash events, %.0fs" % (
-            mode, len(scns), execs, n, len(deaths), time.time() - t0))
-        for rj in rejected:
-            x = rj["x"]
-            sc = scns[x // DIV] if x is not None and x // DIV < len(scns) else None
-            nxt = rj["events"][rj["prefix"]] if rj.get("prefix") is not None and rj["prefix"] < len(rj["events"]) else None
-            kinds = sorted(set(sc["pipe"]["kind"])) if sc else []
-            role = ""
-            if nxt and "s" in nxt and sc:
-                role = ":role=" + ("trigger" if nxt["s"] in trig_nodes(sc["pipe"]) else "source")
-            rep.violation(dict(engine="stream", mode="race-" + mode, event="MonitorReject", monitor="StreamMon", shape=sc["text"] if sc else "?", kinds=kinds,
-                               scenario=sc, rejected_event=nxt, sig="%s|%s%s" % ("take_until" if "take_until" in kinds else "-", ev_sig(nxt), role),
-                               what="StreamMon rejects %s schedule %s of %s at event %s (%s) [sources %s, stopper %s]" % (
-                                   mode, (x % DIV) if x is not None else "?", sc["text"] if sc else "?", rj.get("prefix"), json.dumps(nxt),
-                                   json.dumps(sc["src"]) if sc else "", sc["stopper"] if sc else ""),
-                               events=rj["events"][:200]))
-        if mode == "dfs":
-            ex = vlib.split_executions(lp)
-            if ex:
-                e = ex[len(ex) // 3]
-                rep.sample(dict(kind="recorded-race-trace", scenario=scns[e[0] // DIV]["text"] if e[0] is not None else None, events=[json.loads(l) for l in e[1][:40]]))
+    def part(t):
+        mode, args, i = t
+        return run_replay(ctx, exe, args, bounds[i + 1], lp + ".%s%d" % (mode, i), timeout=2400, unit_div=DIV, max_fatal=6, start=bounds[i])
+    sums, deaths = [], []
+    with concurrent.futures.ThreadPoolExecutor(max_workers=par) as ex:
+        for sm, dt in ex.map(part, tasks):
+            sums += sm
+            deaths += dt
+    with open(lp, "w") as f:
+        for mode, args, i in tasks:
+            q = lp + ".%s%d" % (mode, i)
+            f.write(open(q).read())
+            os.remove(q)
+    t1 = time.time()
+    mode_of = lambda x: "random" if (x % DIV) >= 50000 else "dfs"
+    execs = sum(s.get("execs", 0) for s in sums)
+    rep.evaluations += execs
+    tainted = set()
+    for d in deaths:
+        x = d["x"]
+        mode = mode_of(x)
+        sc = scns[x // DIV] if x // DIV < len(scns) else None
+        tainted.add(x)
+        kinds = sorted(set(sc["pipe"]["kind"])) if sc else []
+        sig = "%s|%s:%s:%s@%s" % ("take_until" if "take_until" in kinds else "-", d["event"], d.get("asan", ""), d.get("frame", ""), ",".join(d.get("marks", [])))
+        rep.violation(dict(engine="stream", mode="race-" + mode, event=d["event"], shape=sc["text"] if sc else "?", kinds=kinds, scenario=sc, sig=sig,
+                           asan=d.get("asan"), frame=d.get("frame"), where=d.get("where"),
+                           what="%s in %s schedule %d of %s [sources %s, stopper %s]: %s %s" % (
+                               d["event"], mode, x % DIV % 50000, sc["text"] if sc else "?", json.dumps(sc["src"]) if sc else "", sc["stopper"] if sc else "",
+                               d.get("asan", ""), d.get("frame", "")), detail=d.get("stderr_tail")))
+    n, rejected = vlib.validate_batched(ctx, "stream", "StreamMon", lp, skip_x=tainted, max_reports=6)
+    for ex in vlib.split_executions(lp):
+        rep.distinct.add(hash(("race", "".join(ex[1][1:]))))
+    rep.note("race: %d scenarios, %d schedules executed (DFS preemption bound 2 + seeded random) in %.0fs, %d validated against StreamMon in %.0fs, "
+             "%d sanitizer/crash events" % (len(scns), execs, t1 - t0, n, time.time() - t1, len(deaths)))
+    for rj in rejected:
+        x = rj["x"]
+        mode = mode_of(x) if x is not None else "?"
+        sc = scns[x // DIV] if x is not None and x // DIV < len(scns) else None
+        nxt = rj["events"][rj["prefix"]] if rj.get("prefix") is not None and rj["prefix"] < len(rj["events"]) else None
+        kinds = sorted(set(sc["pipe"]["kind"])) if sc else []
+        role = ""
+        if nxt and "s" in nxt and sc:
+            role = ":role=" + ("trigger" if nxt["s"] in trig_nodes(sc["pipe"]) else "source")
+        rep.violation(dict(engine="stream", mode="race-" + mode, event="MonitorReject", monitor="StreamMon", shape=sc["text"] if sc else "?", kinds=kinds,
+                           scenario=sc, rejected_event=nxt, sig="%s|%s%s" % ("take_until" if "take_until" in kinds else "-", ev_sig(nxt), role),
+                           what="StreamMon rejects %s schedule %s of %s at event %s (%s) [sources %s, stopper %s]" % (
+                               mode, (x % DIV % 50000) if x is not None else "?", sc["text"] if sc else "?", rj.get("prefix"), json.dumps(nxt),
+                               json.dumps(sc["src"]) if sc else "", sc["stopper"] if sc else ""),
+                           events=rj["events"][:200]))
+    ex = vlib.split_executions(lp)
+    if ex:
+        e = ex[len(ex) // 3]
+        rep.sample(dict(kind="recorded-race-trace", scenario=scns[e[0] // DIV]["text"] if e[0] is not None else None, events=[json.loads(l) for l in e[1][:40]]))
     rep.rule("one race evaluation = one schedule (DFS with preemption bound / seeded random) of a scenario (pipeline x source scripts x stopper) on the real code "
              "under the thread controller, event log validated against StreamMon")
 
@@ -363,6 +372,10 @@ def ev_sig(e):
 def run(ctx):
     rep = ctx.rep
     only = set(filter(None, os.environ.get("VERIF_STREAM_ONLY", "").split(",")))
+    part = os.environ.get("VERIF_STREAM_PART", "all")       # development / self-test aid: "seq" | "race" | "all"
+    if part == "race":
+        run_race(ctx)
+        return
     rep.assume("pipelines from the catalogue (consumer reduce_stream / for_each / manual next()-cleanup() driver over <= 3 stream adaptors, <= 3 harness sources); "
                "elements are ints; harness sources of length 0..%d ending in done or error, each next() inline or deferred, deferred next() reacting to stop by done or "
                "ignoring it, cleanup() inline/deferred completing with done or error; filter predicates scripted per call" % (2 if ctx.quick else 3))
@@ -567,7 +580,7 @@ def run(ctx):
         sh, steps = desc(b)
         rep.sample(dict(kind="tlc-behaviour", shape=sh["text"], cfg=b["cfg"],
                         steps=[dict(k=s["k"], n=s["n"], expect_elems=[e["x"] for e in s["exp"]["elems"]], expect_res=s["exp"]["res"]) for s in b["steps"]]))
-    if not only or os.environ.get("VERIF_STREAM_RACE"):
+    if part != "seq" and not only:
         run_race(ctx)
     rep.rule("one evaluation = one TLC behaviour (pipeline shape x source scripts x predicate scripts x external step sequence: start, completion of a deferred "
              "source next()/cleanup(), stop request, scheduler item, manual next()/cleanup()) replayed on the real adaptors, the observation compared after every "
